@@ -168,6 +168,9 @@ impl Sched {
                 .collect();
             drop(st);
             trace(pid, format!("exec[{}]", shown.join(",")));
+            if args.first().map(|s| s.as_str()) == Some("ext") {
+                trace(pid, format!("fds exec {}", fd_table(&state, pid)));
+            }
         }
     }
     fn tap(&self, pid: Pid, name: &'static str) {
@@ -541,7 +544,7 @@ fn fds_main(env: &mut Env<VS>, args: Vec<Field>) -> BuiltinFuture<'_> {
         let state = RUN.with(|r| r.borrow().state.clone()).unwrap();
         let pid = pid_of(env);
         trace(pid, format!("fds {tag} {}", fd_table(&state, pid)));
-        env.exit_status.into()
+        ExitStatus::SUCCESS.into()
     })
 }
 
